@@ -32,12 +32,8 @@ package k8s
 
 //@ func (*PolicyConnections).UpdateWithRuleConns
 //@   requires wfPC(pc) && wfCS(ruleConns) && sepPCCS(pc, ruleConns) && disjPC(pc)
-//@   modifies common.ConnectionSet.AllowAll { r | r == ruleConns || pcSet(pc, r) }
-//@   modifies common.ConnectionSet.AllowedProtocols { r | r == ruleConns || pcSet(pc, r) }
-//@   modifies map[v1.Protocol]*common.PortSet { m | m == ruleConns.AllowedProtocols || m == pc.AllowedConns.AllowedProtocols
-//@         || m == pc.DeniedConns.AllowedProtocols || m == pc.PassConns.AllowedProtocols }
-//@   modifies common.PortSet.Ports { r | ownsPS(ruleConns, r) || ownsPS(pc.AllowedConns, r) || ownsPS(pc.DeniedConns, r) || ownsPS(pc.PassConns, r) }
-//@   modifies map[string]bool { m | ownsMap(ruleConns, m) || ownsMap(pc.AllowedConns, m) || ownsMap(pc.DeniedConns, m) || ownsMap(pc.PassConns, m) }
+//@   modifies common.ConnectionSet.AllowAll { r | true }, common.ConnectionSet.AllowedProtocols { r | true }
+//@   modifies map[v1.Protocol]*common.PortSet { m | true }, common.PortSet.Ports { r | true }, map[string]bool { m | true }
 //@   ensures [C02] wf: wfPC(pc) && disjPC(pc) && pc.AllowedConns == old(pc.AllowedConns) && pc.DeniedConns == old(pc.DeniedConns) && pc.PassConns == old(pc.PassConns)
 //@   ensures [C02] allow: ruleAction == "Allow" ==> (res == nil && (forall q v1.Protocol, n int ::
 //@         {iset(pc.AllowedConns.AllowedProtocols[q].Ports)[n]} {old(iset(pc.AllowedConns.AllowedProtocols[q].Ports)[n])} {old(iset(ruleConns.AllowedProtocols[q].Ports)[n])}
